@@ -178,6 +178,25 @@ claim("C02",
       "correspondence + end-to-end double-format oracle",
       "DESIGN.md §7 C02")
 
+claim("C03",
+      "Lean theorems on the wrapper models: RELAYOUT_break / RELAYOUT_spaces (exchanging one whitespace character for "
+      "another and multiplying whitespace leave the collapsed text unchanged, for every text), LAYOUT_FN_fill / "
+      "LAYOUT_FN_sentence (both base wrappers are functions of the collapsed text at every width incl. ≤ 0, every indent, "
+      "both escape modes, every character class), LAYERS_TRANSPARENT (the hard-break and tag-newline layers pass a text "
+      "through unless a line starts or ends with a tag or it holds a hard break — the property's deliberate exception and "
+      "nothing else), LAYOUT_FN / LAYOUT_FN_semantic for the complete Markdown wrappers, SOFTBREAK on the render model, "
+      "REWIDTH_partial / REWIDTH_plain (re-filling the words of a fill at another width gives the direct result when no "
+      "escape applies) and the kernel-checked counter-witness REWIDTH_false. End-to-end: fmt(relayout x) = fmt x for "
+      "re-layouts validated by Marko's own reading (break moved, spaces multiplied, lines joined, continuation re-indented) "
+      "and fmt_o2(fmt_o1 x) = fmt_o2 x for option pairs differing in width and mode, with counterfactual attribution.",
+      COMMON_NOTE + "Parser-side layout independence (continuation indentation, lazy continuation) is Marko's and is covered by "
+      "the oracle only. Two design-inherent exceptions are recorded as known findings (an escape or a tag-adjacent newline "
+      "introduced at the first width persists); two defects were repaired (space runs kept in semantic no-wrap mode, in "
+      "headings and table cells).",
+      "Lean 4 proof (wrappers factor through whitespace collapsing; layer transparency by induction over lines) + "
+      "model/implementation correspondence + re-layout / re-width oracle",
+      "DESIGN.md §7 C03")
+
 NOT_YET = {
 }
 
